@@ -157,6 +157,7 @@ PROPS = {
     },
     "C03": {
         "level": "proof",
+        "context_prefix": "enc.fail",   # a replay starts with the last Encode that failed before the operation
         "extract": ["Encoding", "Reader", "Value"],
         "extra_modules": ["QiVerif.Lemmas.Codec", "QiVerif.Lemmas.Value", "QiVerif.Lemmas.Decode"],
         "rule": "random signatures (depth<=4, every scalar incl. c C w W, strings, void, dynamic values, lists, maps with "
